@@ -24,7 +24,8 @@ import c12_eps as E
 from c12_util import LAYOUT_CODE, LAYOUTS, is_store_path, poison_returned, returned_arrays, walk
 
 CONFIG = {
-    "cone": ["Base/ListUtil.v", "Model/Store.v", "Proofs/StoreProofs.v", "Model/Alias.v", "Proofs/AliasProofs.v", "Properties/C12.v"],
+    "cone": ["Base/ListUtil.v", "Model/Store.v", "Proofs/StoreProofs.v", "Model/Alias.v", "Proofs/AliasSound.v", "Proofs/AliasEnumA.v",
+             "Proofs/AliasEnumB.v", "Proofs/AliasEnumC.v", "Proofs/AliasEnumD.v", "Proofs/AliasProofs.v", "Properties/C12.v"],
     "trusted": [
         "coq/Model/Alias.v: the per-entry-point programs are hand-written transcriptions of the Python (one instruction per "
         "aliasing-relevant statement, Python line cited); they are tied to the code by the dynamic alias-relation comparison only",
@@ -41,7 +42,8 @@ CONFIG = {
                   "reachable from self, writes through returned values cannot change store or caller buffers. Second group over "
                   "Model/Store.v: dict, tuple, pandas (+get_field, iterelites), iteration and single-field reads all equal map row olist.",
     "level_note": "The programs describe the code as the property requires (copies); where the unchanged pyribs differs the harness "
-                  "reports the finding (F3, F4, F5, F14, F15 + F16/F17 found by this check) with a concrete failing input. Control flow of an entry point is "
+                  "reports the finding (F3, F4, F5, F15; F14 is fixed in /repo; FC12a from_raw_dict, FC12b GaussianOperator sigma, FC12c "
+                  "GradientArborescenceEmitter.ask_dqd found by this check; patches in fixes/) with a concrete failing input. Control flow of an entry point is "
                   "covered by enumerating its straight-line path variants, loops by one unrolled iteration (the alias relation of an "
                   "iteration does not depend on the index). The programs are hand-written: the tie to the code is the dynamic "
                   "comparison (sampled), not a proof. No axioms.",
@@ -50,7 +52,7 @@ CONFIG = {
 }
 
 THEOREMS = ["alias_sound", "C12_caller_arrays_not_mutated", "C12_caller_arrays_not_retained", "C12_outputs_are_copies_or_readonly",
-            "C12_read_paths_agree"]
+            "C12_read_paths_agree", "C12_pandas_columns", "C12_elites_are_the_stored_rows"]
 
 
 # ---------------------------------------------------------------------------------------------
@@ -235,7 +237,9 @@ def classify(case, ctx_ep, f):
         return "ctor-arg-retained"
     if eff == "unstable":
         return "returned-array-live-view"
-    return "unclassified:%s:%s:%s" % (ctx_ep, eff, arg)
+    generic = {"mut": "caller-array-mutated", "ret": "caller-array-retained", "rcaller": "caller-array-handed-back",
+               "rw_store": "returned-writable-store-view", "rw_self": "returned-writable-internal-view"}.get(eff, "alias-relation-differs:" + str(eff))
+    return "unclassified:%s@%s%s" % (generic, ctx_ep, ":" + arg if arg else "")
 
 
 # ---------------------------------------------------------------------------------------------
@@ -249,7 +253,7 @@ def rand_layouts(rng, names, bias=None):
 
 def base_cfg(rng, kind=None):
     cfg = {"kind": kind or rng.choice(ARCH_KINDS), "dtype": rng.choice(["float64", "float64", "float32"]),
-           "extras": rng.choice([0, 1]), "state": rng.choice(["empty", "some", "some", "dense"]), "pseed": rng.randrange(1000)}
+           "extras": rng.choice([0, 1]), "state": rng.choice(["empty", "some", "some", "dense", "full"]), "pseed": rng.randrange(1000)}
     if cfg["kind"] == "grid":
         cfg["mae"] = rng.choice([0, 0, 1])
     if cfg["kind"] == "cvt":
@@ -389,7 +393,7 @@ def findings_of(case, driver):
 
 
 SIMPLER = {  # per config key: values in order of preference (simplest first); the shrinker only moves towards the front
-    "state": ["empty", "some", "dense"], "n": [1, 2, 4], "extras": [0, 1], "dtype": ["float64", "float32"], "mae": [0, 1],
+    "state": ["empty", "some", "dense", "full"], "n": [1, 2, 4], "extras": [0, 1], "dtype": ["float64", "float32"], "mae": [0, 1],
     "result": [0, 1], "mode": ["batch", "single"], "spy": [0, 1], "intent": ["mixed", "reject"], "lc": [0, 1], "kd": [1, 0],
     "emitters": [["gaussian"], ["gaussian", "es"], ["es", "isoline"]], "pseed": [0], "normalize": [1, 0], "init": [0, 1],
     "rtype": ["dict"], "cap": [6, 3, 1],
@@ -609,6 +613,16 @@ def forced_cases():
                                    "init": 0, "mae": 0, "es": "cma_es", "grad_opt": "adam"}, {})
     for rt in E.RTYPES:
         mk("Store.data", {"dtype": "float64", "state": "some", "pseed": 1, "cap": 6, "rtype": rt}, {})
+    for rt in E.RTYPES:  # every cell occupied in index order: "all of the store" and the internal arrays coincide
+        for cap in (1, 6):
+            mk("Store.data", {"dtype": "float64", "state": "full", "pseed": 1, "cap": cap, "rtype": rt}, {})
+            mk("Store.retrieve", {"dtype": "float64", "state": "full", "pseed": 1, "cap": cap, "n": cap, "rtype": rt}, {"indices": "exact"})
+    for kind in ("grid", "cvt"):
+        base = {"kind": kind, "dtype": "float64", "extras": 1, "state": "full", "pseed": 2, "n": 3, "lc": 0, "kd": 1, "mae": 0}
+        for rt in ("dict", "tuple", "pandas", "single", "pandas_get_field", "pandas_iterelites"):
+            mk("Archive.data", dict(base, rtype=rt), {})
+        for ep in ("Archive.best_elite", "Archive.sample_elites", "Archive.iter"):
+            mk(ep, base, {})
     for ep in ("Store.iter", "Store.as_raw_dict", "Store.occupied"):
         mk(ep, {"dtype": "float32", "state": "dense", "pseed": 2, "cap": 6}, {})
     for kind in ARCH_KINDS:
